@@ -56,6 +56,8 @@ def parseMsg (d : String) : AMsg :=
         | "rc" => { m with rc := v.toNat?, present := m.present ++ [268] }
         | "auth" => { m with auth := m.auth ++ nums, present := m.present ++ [258] }
         | "acct" => { m with acct := m.acct ++ nums, present := m.present ++ [259] }
+        | "vauth" => { m with vauth := m.vauth ++ nums, present := m.present ++ [260] }
+        | "vacct" => { m with vacct := m.vacct ++ nums, present := m.present ++ [260] }
         | "ip" => { m with present := m.present ++ [257] }
         | "vid" => { m with present := m.present ++ [266] }
         | "pn" => { m with present := m.present ++ [269] }
